@@ -6,12 +6,27 @@
    skip-until arithmetic; TARGETDURATION computed after rounding to the text's resolution;
    TARGETDURATION of the leading stream's playlist never decreases between two moments of a history
    (c03_target_never_decreases: any state, any further writes).
-   Checked by the correspondence run + oracle, not proved: EXTINF equals the media time spanned by
-   the leading track's samples, PROGRAM-DATE-TIME equals the wall clock of the first unit, the
-   non-leading streams copy the leading stream's values. *)
+   Proved here for the fMP4 and Low-Latency variants (hypothesis c_variant c <> MPEGTS), for the LEADING
+   stream, in every state reached from Start by writes that all return nil (hypothesis all_ok m0 ops; no
+   other hypothesis - units before -10 s, skipped units, parameter changes and writes of the other tracks
+   are all covered):
+     c03_segment_times_are_first_units  every non-gap evicted or listed segment has samples x :: rest; in the
+        stream's sample log followed by the leading track's look-ahead unit they are followed by a unit y (the
+        first sample of the next segment or, after the newest segment, the look-ahead unit that will open the
+        next one); the record's start / wall clock are timestampToDuration (dts x) / ntp x and its end is
+        timestampToDuration (dts y), at the leading track's clock rate (dts includes the muxer's +10 s);
+     c03_extinf_is_media_span  hence EXTINF (ps_dur) of the i-th listed entry of the leading stream's playlist,
+        when not a gap, = timestampToDuration (dts y) - timestampToDuration (dts x): the media time the
+        segment spans on the leading track, consecutive segments tiling the time line;
+     c03_date_time_is_first_unit_ntp  EXT-X-PROGRAM-DATE-TIME (ps_dt), where printed, is the wall clock
+        written with the unit that became the segment's first sample;
+     c03_span_nonvacuous  a concrete Low-Latency history with two complete segments meets the hypotheses.
+   Checked by the correspondence run + oracle, not proved: the same two facts for the MPEG-TS variant, and
+   that the non-leading streams copy the leading stream's values. *)
 From Coq Require Import List ZArith Bool.
 From GoHls Require Import Model.Mux Proofs.MuxStream Proofs.MuxLift Proofs.MuxWindow Proofs.MuxHistory
-  Proofs.MuxPlaylist Proofs.MuxTimes Proofs.MuxTargetMono.
+  Proofs.MuxPlaylist Proofs.MuxTimes Proofs.MuxTargetMono
+  Proofs.MuxLog Proofs.MuxLogStep Proofs.MuxGroups Proofs.MuxChain Proofs.MuxSpan Proofs.MuxSpanHist.
 Import ListNotations.
 Local Open Scope Z_scope.
 
@@ -67,3 +82,71 @@ Theorem c03_target_never_decreases : forall m ops si s pl pl',
   pl_target pl <= pl_target pl'.
 Proof. exact playlist_target_monotone. Qed.
 Print Assumptions c03_target_never_decreases.
+
+(* ---- EXTINF is the media span, PROGRAM-DATE-TIME the first unit's wall clock (leading stream, fMP4 variants) ---- *)
+Theorem c03_segment_times_are_first_units : forall c m0 ops,
+  start c = Ok m0 -> c_variant c <> MPEGTS -> all_ok m0 ops ->
+  let m := mux_run m0 ops in
+  let li := leading_index m in
+  forall s t P g Q,
+    nth_error (m_streams m) li = Some s -> nth_error (m_tracks m) li = Some t ->
+    published s = P ++ g :: Q -> sg_gap g = false ->
+    tk_leading t = true /\ st_tracks s = [li] /\
+    exists x rest y after,
+      seg_samples g = x :: rest
+      /\ slog m li ++ pend_list m li = flat_map seg_samples (real_segs P) ++ (x :: rest) ++ y :: after
+      /\ sg_start g = timestampToDuration (s_dts x) (t_rate (tk_cfg t))
+      /\ sg_ntp g = s_ntp x
+      /\ sg_end g = timestampToDuration (s_dts y) (t_rate (tk_cfg t)).
+Proof. exact segment_times_are_first_units. Qed.
+Print Assumptions c03_segment_times_are_first_units.
+
+Theorem c03_extinf_is_media_span : forall c m0 ops,
+  start c = Ok m0 -> c_variant c <> MPEGTS -> all_ok m0 ops ->
+  let m := mux_run m0 ops in
+  let li := leading_index m in
+  forall t pl i e,
+    nth_error (m_tracks m) li = Some t -> gen_media_playlist m li = Some pl ->
+    nth_error (pl_segs pl) i = Some e -> ps_gap e = false ->
+    exists s g x rest y after,
+      nth_error (m_streams m) li = Some s /\ nth_error (st_segments s) i = Some g /\ ps_id e = sg_id g
+      /\ seg_samples g = x :: rest
+      /\ slog m li ++ pend_list m li
+         = flat_map seg_samples (real_segs (st_evicted s ++ firstn i (st_segments s))) ++ (x :: rest) ++ y :: after
+      /\ ps_dur e = timestampToDuration (s_dts y) (t_rate (tk_cfg t)) - timestampToDuration (s_dts x) (t_rate (tk_cfg t)).
+Proof. exact extinf_is_media_span. Qed.
+Print Assumptions c03_extinf_is_media_span.
+
+Theorem c03_date_time_is_first_unit_ntp : forall c m0 ops,
+  start c = Ok m0 -> c_variant c <> MPEGTS -> all_ok m0 ops ->
+  let m := mux_run m0 ops in
+  let li := leading_index m in
+  forall pl i e,
+    gen_media_playlist m li = Some pl -> nth_error (pl_segs pl) i = Some e -> ps_gap e = false ->
+    exists s g x rest,
+      nth_error (m_streams m) li = Some s /\ nth_error (st_segments s) i = Some g /\ ps_id e = sg_id g
+      /\ seg_samples g = x :: rest
+      /\ forall ntp, ps_dt e = Some ntp -> ntp = s_ntp x.
+Proof. exact date_time_is_first_unit_ntp. Qed.
+Print Assumptions c03_date_time_is_first_unit_ntp.
+
+(* the hypotheses of the three theorems above are met by a Low-Latency history with two complete segments
+   (segments 7 and 8, 1 s each: first samples at 10 s and 11 s, the open segment's first sample at 12 s) *)
+Theorem c03_span_nonvacuous : exists m0 t pl e1 e2,
+  start ex_cfg = Ok m0 /\ c_variant ex_cfg <> MPEGTS /\ all_ok m0 sp_ops
+  /\ let m := mux_run m0 sp_ops in
+     let li := leading_index m in
+     nth_error (m_tracks m) li = Some t /\ t_rate (tk_cfg t) = 90000
+     /\ gen_media_playlist m li = Some pl
+     /\ nth_error (pl_segs pl) 5 = Some e1 /\ ps_gap e1 = false
+     /\ nth_error (pl_segs pl) 6 = Some e2 /\ ps_gap e2 = false
+     /\ (ps_id e1, ps_dur e1, ps_dt e1) = (7, 1000000000, Some 1700000000000000000)
+     /\ (ps_id e2, ps_dur e2, ps_dt e2) = (8, 1000000000, Some 1700000000999990000)
+     /\ map (map (fun x => (s_pay x, s_dts x, s_ntp x))) (glog m li)
+        = [[(10, 900000, 1700000000000000000); (11, 930000, 1700000000333330000); (12, 960000, 1700000000666660000)];
+           [(13, 990000, 1700000000999990000); (14, 1020000, 1700000001333320000); (15, 1050000, 1700000001666650000)];
+           [(16, 1080000, 1700000001999980000)]]
+     /\ (timestampToDuration 900000 90000, timestampToDuration 990000 90000, timestampToDuration 1080000 90000)
+        = (10000000000, 11000000000, 12000000000).
+Proof. exact span_example. Qed.
+Print Assumptions c03_span_nonvacuous.
